@@ -24,17 +24,27 @@ Seed == IF "VERIF_SEED" \in DOMAIN IOEnv THEN atoi(IOEnv.VERIF_SEED) ELSE 1
 -----------------------------------------------------------------------------
 (* response writer *)
 Alpha == IF GenOps = "full" THEN OpsFull ELSE OpsSmall
-RECURSIVE SeqsOfLen(_, _)
-SeqsOfLen(S, n) == IF n = 0 THEN {<< >>} ELSE {Append(p, s) : p \in SeqsOfLen(S, n - 1), s \in S}
 SigOf(P, ops) == [wh2 |-> Wh2(ops), ck2 |-> Ck2(P, ops), lost |-> Lost(P, ops)]
 Rw(fam, P, ops) == [kind |-> "rw", fam |-> fam, pre |-> P, prebody |-> PreBodyOf(P), ops |-> ops, sig |-> SigOf(P, ops)]
-EnumRw == UNION {{Rw("enum", P, ops) : P \in Pres, ops \in SeqsOfLen(Alpha, n)} : n \in 0 .. GenLen}
+\* the enumeration as a sequence, decoded from its index (a SET of several hundred thousand records costs TLC hours):
+\* case e (0-based) = initial response e % 2, sequence number e \div 2 in the list "all of length 0, all of length 1, .."
+AlphaSeq == SetToSeq(Alpha)
+K == Len(AlphaSeq)
+RECURSIVE Pow(_, _)
+Pow(b, n) == IF n = 0 THEN 1 ELSE b * Pow(b, n - 1)
+RECURSIVE Cum(_)
+Cum(n) == IF n = 0 THEN 0 ELSE Cum(n - 1) + Pow(K, n - 1)          \* number of sequences shorter than n
+NEnum == 2 * Cum(GenLen + 1)
+SeqNo(n, j) == [p \in 1 .. n |-> AlphaSeq[((j \div Pow(K, p - 1)) % K) + 1]]
+EnumAt(e) == LET s == e \div 2
+                 n == CHOOSE m \in 0 .. GenLen : Cum(m) <= s /\ s < Cum(m + 1)
+             IN Rw("enum", IF e % 2 = 0 THEN PreNone ELSE PreSome, SeqNo(n, s - Cum(n)))
 
 Hh(x) == LET y == x % 46337 IN (y * y + 7) % 46337
 R(i, k) == Hh(Hh(Hh((Seed * 131 + i * 31 + k * 7) % 46337) + k) + (i % 977))
 FullSeq == SetToSeq(OpsFull)
 RandOps(i) == [k \in 1 .. (GenLen + 1 + (R(i, 0) % 5)) |-> FullSeq[(R(i, k) % Len(FullSeq)) + 1]]
-RandRw == {Rw("rand", IF R(i, 99) % 2 = 0 THEN PreNone ELSE PreSome, RandOps(i)) : i \in 1 .. NRand}
+RandAt(i) == Rw("rand", IF R(i, 99) % 2 = 0 THEN PreNone ELSE PreSome, RandOps(i))
 
 -----------------------------------------------------------------------------
 (* requests *)
@@ -92,8 +102,12 @@ FilterWF(S) == {c \in S : Fits(c.proto, c.body)}
 ReqCases == FilterWF(FamA("fwd") \cup FamA("rev") \cup FamB("fwd") \cup FamB("rev") \cup FamC)
 
 -----------------------------------------------------------------------------
-AllCases == SetToSeq(ReqCases) \o SetToSeq(EnumRw) \o SetToSeq(RandRw)
-ASSUME ndJsonSerialize(IOEnv.VERIF_OUT, [i \in 1 .. Len(AllCases) |-> [id |-> i] @@ AllCases[i]])
+ReqSeq == SetToSeq(ReqCases)
+NReq == Len(ReqSeq)
+CaseAt(i) == IF i <= NReq THEN ReqSeq[i]
+             ELSE IF i <= NReq + NEnum THEN EnumAt(i - NReq - 1)
+             ELSE RandAt(i - NReq - NEnum)
+ASSUME ndJsonSerialize(IOEnv.VERIF_OUT, [i \in 1 .. NReq + NEnum + NRand |-> [id |-> i] @@ CaseAt(i)])
 GenInit == StartWith(PreNone)
 GenNext == UNCHANGED vars
 =============================================================================
